@@ -10,25 +10,30 @@ MANIFEST = {
                  "the API and the built mp4ff-encrypt / mp4ff-decrypt binaries",
     "level_text": "Theorems (coq/c06/C06Theorems.v), all for unbounded inputs: CryptSampleCenc applied twice is the identity for EVERY block function, key, IV "
                   "and sub-sample map; DecryptSampleCbcs inverts EncryptSampleCbcs for every crypt:skip pattern and size whenever "
-                  "D inverts E on 16-byte blocks; RemoveEncryptionBoxes (repaired text) keeps exactly the non-protection boxes in "
-                  "order and counts exactly the removed bytes; for every single-traf fragment with arbitrary opaque boxes, encrypt -> "
-                  "encode/decode -> decrypt restores the clear children, data offset, mdat position AND every sample byte (both schemes, any protection "
-                  "function: AVC/HEVC/audio). Senc box byte for byte: C06_senc_codec parse(encode senc) = senc for every per-sample IV size 0/8/16 and every "
-                  "sub-sample layout (DecodeSenc + ParseReadBox with the written IV size, or inferred); C06_aux_consistent the saiz sizes are the byte lengths of "
-                  "the senc entries sample by sample; C06_saio_points_at_entries the saio offset addresses the first entry in the encoded moof and passes "
-                  "ParseReadSenc's check; C06_senc_transport_cenc/_cbcs the decoder hands decryptSamplesInPlace exactly the IV / sub-sample lists the fragment "
-                  "theorems assume. Sample location: the trex is a parameter of both sides (C06_fragment_roundtrip_trex_cenc restores the whole mdat payload "
-                  "when they agree, C06_trex_mismatch_refuted shows it false otherwise). Whole files: C06_file_roundtrip_cenc by induction over the fragment list "
-                  "(cumulative position shift, same IV per fragment as the code does, re-encoded layout = clear layout, every sample restored). Init: "
-                  "DecryptInit(InitProtect init) = init, and C06_init_restore_all for every number of tracks and sample entries with arbitrary entry children. "
-                  "Refuted with witnesses reproduced on the real code: C06_mixed_subsamples_refuted (known finding C06-F4). Third-party cenc fragments keep "
-                  "sample count/sizes, offsets shift by the removed bytes. Explored, not proved: that the Go code behaves like the model (correspondence), "
-                  "sinf/tenc/sample-entry (de)serialisation to bytes, cbcs length preservation for the file/trex theorems (generic theorem with that hypothesis), "
-                  "sidx (known finding C06-F3), absolute tfhd base_data_offset (C06-F2).",
+                  "D inverts E on 16-byte blocks, and keeps every sample length (C06_cbcs_keeps_length); RemoveEncryptionBoxes keeps exactly the boxes that are not "
+                  "saiz/saio/senc/uuid-senc in order and counts exactly the removed bytes, and (C06_nonprotection_boxes_kept) every box that is not protection "
+                  "signalling - the predicate looks at the grouping type of sbgp/sgpd: only seig is protection signalling - comes out unchanged in order "
+                  "(C06_drop_all_groups_refuted: a variant removing every sbgp/sgpd breaks it); for every single-traf fragment with arbitrary opaque boxes "
+                  "(sample groups, subs, tfxd/tfrf, unknown) encrypt -> encode/decode -> decrypt restores the clear children, data offset, mdat position AND "
+                  "every sample byte (both schemes, any protection function). Senc box byte for byte: C06_senc_codec, C06_aux_consistent, C06_saio_points_at_entries, "
+                  "C06_senc_transport_cenc/_cbcs; SencBox.AddSample in its repaired text: C06_senc_repaired_agrees (same SencBox as the pinned text on uniform "
+                  "fragments) and C06_senc_transport_mixed (fragments mixing samples with and without sub-sample maps: tables transported exactly). Sample "
+                  "location: the trex is a parameter of both sides (C06_fragment_roundtrip_trex_cenc, _trex_cbcs WITHOUT a length hypothesis, C06_trex_mismatch_refuted). "
+                  "Durations / flags / composition offsets / decode times: C06_timing_roundtrip (the defaults both sides write into trun.Samples with ANY trex leave no "
+                  "trace in the encoded trun; metadata after encrypt and after decrypt = clear, for every combination of trun/tfhd/trex signalling incl. "
+                  "first-sample-flags), C06_sizes_agree. Whole files by induction over the fragment list: C06_file_roundtrip_cenc and C06_file_roundtrip_cbcs. Init: "
+                  "DecryptInit(InitProtect init) = init and C06_init_restore_all for every number of tracks and entries with arbitrary entry children - no guard on "
+                  "sinf boxes the entry owns (RemoveEncryption repaired: fix bb3f974); in BYTES: C06_sinf_codec (frma/schm/schi/tenc/sinf parse(encode) = id) and "
+                  "C06_entry_bytes_roundtrip (decode + RemoveEncryption + Encode of the protected sample entry = the bytes of the clear entry, 4cc and size included). "
+                  "Third-party cenc fragments keep sample count/sizes, offsets shift by the removed bytes. Explored, not proved: that the Go code behaves like the "
+                  "model (correspondence), sidx (known finding C06-F3), absolute tfhd base_data_offset (C06-F2), the fixed fields of sample entries and children "
+                  "other than sinf (opaque bytes assumed to re-encode to themselves: property C01).",
     "level_note": "Trusted: Coq kernel, extraction, OCaml/Go glue. Modelled, not verified: crypto/aes, cipher CTR/CBC, box "
-                  "(de)serialisation other than senc/saiz/saio (boxes are opaque kind/size/identity triples; sample-entry children are opaque identities), "
-                  "16-byte box headers, trun/tfhd fields other than the sample sizes. The senc theorems are about the SencBox states EncryptFragment builds "
-                  "(all samples of a fragment with, or all without, a sub-sample map: `uniform`).",
+                  "(de)serialisation other than senc/saiz/saio, the trun sample table and sinf/frma/schm/schi/tenc (other boxes are opaque kind/size/identity triples or opaque bytes), "
+                  "16-byte box headers, the laxness of the io.Reader container decoder (a child larger than its parent is read to EOF: the model rejects it). "
+                  "A clear input that already carries a seig sample group is protection-signalled input outside the property's 'clear track' (a seig that "
+                  "contradicts the tenc InitProtect writes makes ParseReadSenc misread the senc: witness in reports/C06.md); the search feeds seig groups that agree "
+                  "with the tenc and lets decrypt keep or drop them.",
 }
 
 
@@ -45,7 +50,8 @@ def build(ctx):
 def run(ctx):
     ctx.cov["trusted_base"] = common.TRUSTED_BASE_COMMON + [
         "model: coq/c06/C06SencModel.v (SencBox.Encode/calcSize, DecodeSenc, ParseReadBox, parseAndFillSamples, ParseReadSenc, saiz/saio encode), "
-        "C06TrexModel.v (GetFullSamples size resolution trun/tfhd/trex, files), C06EntryModel.v + C06InitModel.v (InitProtect/DecryptInit), "
+        "C06TrexModel.v (GetFullSamples size resolution trun/tfhd/trex, files), C06TimingModel.v (AddSampleDefaultValues, trun sample table encode/decode, decode times), "
+        "C06SinfModel.v (frma/schm/schi/tenc/sinf bytes, sample entry bytes, container walk), C06EntryModel.v + C06InitModel.v (InitProtect/DecryptInit), "
         "coq/c06/C06Model.v (decryptSamplesInPlace, TrafBox.RemoveEncryptionBoxes after the fix commit, MoofBox.RemovePsshs, "
         "DecryptFragment offset arithmetic, EncryptFragment's box additions, SetTrunDataOffsets) + coq/c07/C07Model.v (sample crypt)",
         "coq/c07/C07Aes.v AES-128 (encrypt + decrypt) validated against FIPS-197 vectors, used only in the correspondence",
@@ -57,7 +63,10 @@ def run(ctx):
                         "senc theorems: every sample of a fragment has a sub-sample map or none has (mixed fragments: known finding C06-F4); senc box < 2^32 bytes, "
                         "aux_consistent: entries < 256 bytes (C07-F1 beyond); saio: box sizes unchanged between EncryptFragment and Encode (C07-F2)",
                         "trex / file theorems: the decrypt side resolves sample sizes with the same trex as the encrypt side; cenc (cbcs: generic theorem with a length hypothesis)",
-                        "init: no sample entry owns a sinf before protection"]
+                        "cbcs file / trex theorems: samples (mdat payload) below 4 GiB, sub-sample maps inside their sample",
+                        "timing: one trun per traf; the trun is what a decoder delivers (absent fields zero, fields < 2^32)",
+                        "entry bytes: child boxes of the sample entry other than sinf re-encode to the bytes they were decoded from (C01), compact box headers",
+                        "a clear input carrying a seig sample group that contradicts the tenc InitProtect writes is outside the property (protection signalling in the input)"]
     exe, model = build(ctx)
     pr = ctx.proofs("c06", "C06Theorems.v")
     n = ctx.n(400, 8000)
@@ -88,7 +97,12 @@ def run(ctx):
                         "E senc/saiz/saio boxes of the moof that EncryptFragment+Encode really wrote (found by walking the bytes) compared byte for byte with the model's encoding computed from IV, sample lengths and protection ranges only, senc position, saio offset, and the SencBox after DecodeFile / after ParseReadSenc with perSampleIVSize tenc,0,8,16 (AVC/HEVC/audio, both schemes, a sample without ranges now and then); "
                         "M malformed senc boxes (wrong flags/counts up to 2^32-1, truncated/extended payload, size field beyond the data, version 1, random payload, IVs that look like sub-sample counts) through DecodeBox and DecodeBoxSR + ParseReadBox(0,8,16,5); "
                         "T sample sizes resolved by GetFullSamples with the file's trex and with nil on decoded clear files that signal sizes in trun / tfhd / trex only; "
-                        "Q DecryptInit on moovs assembled from 1-3 tracks x 1-3 entries protected one by one by InitProtect (clear entries/tracks in between, avc3/hev1, btrt, unknown children, own sinf, pssh)",
+                        "Q DecryptInit on moovs assembled from 1-3 tracks x 1-3 entries protected one by one by InitProtect (clear entries/tracks in between, avc3/hev1, btrt, unknown children, own sinf, pssh); "
+                        "S/G/E now with sbgp/sgpd of grouping types roll/rap /sync/alst/seig/tele, subs, unknown uuid, skip/free in traf and moof, extra boxes in the init; "
+                        "U sample flags/duration/size/cto/decode time from GetFullSamples with the file's trex and with nil (values in trun, tfhd, only in trex, first-sample-flags), the trun bytes Encode writes AFTER the defaults were filled into trun.Samples, and that box decoded again; "
+                        "V trun bodies of all 64 flag combinations, damaged (wrong/huge counts, truncated, extended); "
+                        "W the sample entry bytes (found by walking) of the clear init (AVC/HEVC/AAC + btrt/pasp/unknown/sinf-like/free children, own sinf), after InitProtect+Encode, after DecodeFile+DecryptInit+Encode, and the sinf DecryptInit returns; "
+                        "X sinf boxes written from the syntax: tenc versions 0/1/2, crypt:skip, isProtected 0/1/2, IV sizes 0/8/16, constant IVs, schm with URI, missing/duplicate/reordered/unknown children, short tenc/schm/frma, child size below 8",
     }
     ctx.cov["samples"] += [l[:300] for l in lines[10:12]] + [l[:300] for l in lines[n + 5:n + 7]] + [l[:300] for l in lines[-2:]]
     ctx.log("correspondence: %d cases, %d mismatches" % (len(lines), len(mism)))
@@ -135,7 +149,7 @@ def run(ctx):
     ctx.cov["rule"] = ("corr: %d case lines (kinds %s), distinct = distinct case lines; search: %d synthetic clear tracks (AVC/HEVC NALU "
                        "size mixes around 1,15-17,107-128,65535+-1, audio; cenc/cbcs; 8/16-byte IVs incl. ff..ff; extra uuid/unknown/free "
                        "boxes in moof/traf, optional pssh in moof) through InitProtect/EncryptFragment -> encode -> decode -> DecryptInit/DecryptFragment -> encode, "
-                       "byte comparison with the clear file (then per-clause diagnosis); %d whole files built like mp4ff-encrypt/-decrypt process them (1-4 fragments, styp, 0-2 pssh in moov, tfhd base_data_offset variants; every second file against a non-trivial trex with sample size/duration/flags per fragment in trun, in tfhd defaults or only in trex + first-sample-flags), the intermediate encrypted file checked sample by sample against a reference AES-CTR / AES-CBC-pattern encryption (crypto/aes only) under the senc entry, whose sub-sample map must be the protection ranges of the clear sample; 5 third-party encrypted files: sizes/timing kept"
+                       "byte comparison with the clear file (then per-clause diagnosis: full child lists, type + bytes, of moov/trak/mdia/minf/stbl/stsd/sample entries/moof/traf found by walking both files); %d whole files built like mp4ff-encrypt/-decrypt process them (1-4 fragments, styp, 0-2 pssh in moov, tfhd base_data_offset variants; every second file against a non-trivial trex with sample size/duration/flags per fragment in trun, in tfhd defaults or only in trex + first-sample-flags), the intermediate encrypted file checked sample by sample against a reference AES-CTR / AES-CBC-pattern encryption (crypto/aes only) under the senc entry, whose sub-sample map must be the protection ranges of the clear sample, and sample flags/dur/size/cto/decode time of the encrypted file = clear file; init segments whose entry owns a sinf / holds two sinf boxes (DecryptInit must remove the sinf it returns); 5 third-party encrypted files: sizes/timing kept"
                        % (len(lines), kinds, ns, ns // 2))
 
 
